@@ -147,6 +147,36 @@ def replay_transform_filter():
     return dict(reproduced=bool(bad), log="\n".join(logs), what="; ".join(bad) or "every reported class satisfies the filter")
 
 
+def replay_depth():
+    """C09 on the real binary: `group DIR --depth k` must read DIR's entries for k >= 1 but enter its sub-directories
+    only for k >= 2 (config.rs: "1 descends into directories specified explicitly as input paths, but does not descend
+    into subdirectories"; README: "--depth 1  # scan only files in the current dir, skip subdirs")."""
+    exe, msg = build_binary()
+    if not exe:
+        return dict(reproduced=None, log="could not build the real binary: " + msg)
+    d = common.mkscratch("replay-c09")
+    tree = os.path.join(d, "r")
+    os.makedirs(os.path.join(tree, "sub", "deeper"))
+    for rel, data in (("a", b"x\n"), ("b", b"x\n"), ("sub/c", b"yy\n"), ("sub/d", b"yy\n"),
+                      ("sub/deeper/e", b"zzz\n"), ("sub/deeper/f", b"zzz\n")):
+        with open(os.path.join(tree, rel), "wb") as f:
+            f.write(data)
+    logs, bad = [], []
+    # level of a file = number of directories between the input path and the file (a, b: 1; sub/c: 2; sub/deeper/e: 3)
+    for k in (1, 2, 3):
+        p = subprocess.run([exe, "group", tree, "--depth", str(k)], cwd=d, stdout=subprocess.PIPE, stderr=subprocess.DEVNULL,
+                           text=True, timeout=120)
+        listed = sorted(os.path.relpath(l.strip(), tree) for l in p.stdout.splitlines() if l.startswith("    "))
+        logs.append("group r --depth %d -> %s" % (k, listed))
+        for rel in listed:
+            if rel.count("/") + 1 > k:
+                bad.append("--depth %d lists %s (a file %d directories below the input path)" % (k, rel, rel.count("/") + 1))
+        for rel in ("a", "sub/c", "sub/deeper/e"):
+            if rel.count("/") + 1 <= k and rel not in listed:
+                bad.append("--depth %d misses %s" % (k, rel))
+    return dict(reproduced=bool(bad), log="\n".join(logs), what="; ".join(bad) or "every listed file is within the depth limit")
+
+
 def replay_transform_frame():
     """C07 on the real binary: `group --transform ...` in every I/O mode must leave the scanned tree as it was."""
     exe, msg = build_binary()
